@@ -73,6 +73,7 @@ type Contract struct {
 	Closures  map[int][]GhostUpdate // ghost updates at MakeClosure ordinal k
 	Ghosts    []GhostStmt
 	Thread    bool
+	ThreadWG  ast.Expr // the WaitGroup whose Done the thread calls exactly once
 	GhostTags []string
 	Probes    []ProbeDef
 	Replay    string // name of the replay driver under /verif/replay for obligations of this function
@@ -382,6 +383,13 @@ func (s *Specs) loadSpecFile(w *World, path string, pkg *packages.Package, trust
 			cur.NoSafety = true
 		case "thread":
 			cur.Thread = true
+			if rest != "" {
+				e, err := parseExprAt(rest, path, l.line)
+				if err != nil {
+					return err
+				}
+				cur.ThreadWG = e
+			}
 		case "ghost-tags":
 			cur.GhostTags = append(cur.GhostTags, strings.Fields(rest)...)
 		case "replay":
